@@ -207,7 +207,9 @@ def graham_comparator(rep, F):
         a, b = ev.ev(args[0]), ev.ev(args[1])
         return (a["x"] - b["x"]) ** 2 + (a["y"] - b["y"]) ** 2
     calls["geo::algorithm::kernels::Kernel::square_euclidean_distance"] = sqd
-    grid = [C(x, y) for x in range(4) for y in range(4)]
+    from ..report import thorough
+    g = 5 if thorough() else 4
+    grid = [C(x, y) for x in range(g) for y in range(g)]
     head = C(0, 0)      # the pivot is the lexicographically least point: every other point is to its right or above
     n = 0
     for q, r in itertools.product(grid, repeat=2):
